@@ -5,6 +5,7 @@ import common as C
 import optsdom
 import validout
 import c1113x
+import c0913x
 
 PROP = "C13"
 NAME = "c13"
@@ -15,8 +16,8 @@ def build(ctx):
     ctx.log("translate", out)
     if not ok:
         ctx.diag.append("translator failed: " + out[-300:])
-    C.prove(ctx, ["Props/C13.v", "Props/C13Valid.v", "Props/C13General.v", "Props/C13Opts.v"],
-            ["Oblig/C13Obl.v", "Oblig/ValidRevObl.v", "Oblig/C13GenObl.v", "Oblig/OptSitesObl.v"])
+    C.prove(ctx, ["Props/C13.v", "Props/C13Valid.v", "Props/C13General.v", "Props/C13Opts.v", "Props/C13OptsValid.v"],
+            ["Oblig/C13Obl.v", "Oblig/ValidRevObl.v", "Oblig/C13GenObl.v", "Oblig/OptSitesObl.v", "Oblig/C13OptsObl.v"])
     ok, out = C.build_harness()
     ctx.log("go build", out)
     if not ok:
@@ -31,6 +32,7 @@ def build(ctx):
     if not ok:
         ctx.diag.append("extracted model does not build: " + out[-600:])
     c1113x.build(ctx, "rev")
+    c0913x.build(ctx, "rev")
     return True
 
 
@@ -53,7 +55,7 @@ def search(ctx, factor):
     oracle(ctx, ctx.scale(8000, 150000) * factor, "search")
     found = ctx.fails[before:]
     del ctx.fails[before:]
-    return found + c1113x.search(ctx, "rev", factor)
+    return found + c1113x.search(ctx, "rev", factor) + c0913x.search(ctx, "rev", factor)
 
 
 def run(ctx):
@@ -83,6 +85,8 @@ def run(ctx):
     summ = oracle(ctx, ctx.scale(8000, 150000))
     ctx.add_summary(summ, "File.Reversal oracle")
     optsdom.run(ctx, "C13")
+    # phase 5: Reversal of files valid only under their stored options (Props/C13OptsValid.v)
+    c0913x.run(ctx, "rev")
     if ctx.tier == "thorough":
         ctx.cov["forbidden_vernacular"] = C.forbidden_vernacular()
 
@@ -92,6 +96,8 @@ def replay(path):
         return optsdom.replay(path)
     if c1113x.is_case(path):
         return c1113x.replay(path)
+    if c0913x.is_case(path):
+        return c0913x.replay(path)
     ok, out = C.build_harness()
     if not ok:
         print(out[-2000:])
